@@ -4,6 +4,7 @@ import (
 	"github.com/jsightapi/jsight-schema-core/bytes"
 	"github.com/jsightapi/jsight-schema-core/fs"
 	"github.com/jsightapi/jsight-schema-core/kit"
+	"github.com/jsightapi/jsight-schema-core/panics"
 	"github.com/jsightapi/jsight-schema-core/rules/enum"
 
 	"github.com/jsightapi/jsight-api-core/jerr"
@@ -105,10 +106,21 @@ func (s *Scanner) readEnumWithJsc() (uint, *jerr.JApiError) {
 	fc := s.file.Content()
 	file := fs.NewFile("", fc.Sub(s.curIndex, fc.LenIndex()))
 
-	l, err := enum.FromFile(file).Len()
+	l, err := enumLen(file)
 	if err != nil {
 		err := kit.ConvertError(file, err)
 		return 0, s.japiError(err.Message(), s.curIndex+bytes.Index(err.Index()))
 	}
 	return l, nil
+}
+
+// enumLen is the length of the enum the file begins with. The reader of the
+// schema library fails with a runtime panic on some unfinished input (an
+// unterminated /* after the closing bracket): that is an error of the document
+// at this place, not of the program.
+func enumLen(file *fs.File) (l uint, err error) {
+	defer func() {
+		err = panics.Handle(recover(), err)
+	}()
+	return enum.FromFile(file).Len()
 }
